@@ -59,7 +59,7 @@ func (tk *TKAI) outcomesFrom(fn *ssa.Function, b *ssa.BasicBlock, cur KSet) []st
 
 func ruleC11R1(w *World, r *Report) {
 	const rule = "C11/R1"
-	r.rule(rule, "every test of the current token against <eof> inside a production behaves the same for <eof> and for ';' up to the next consumption (same consumption sites and normal returns, or both raise)", 10)
+	r.rule(rule, "every test of the current token against <eof> inside a production behaves the same for <eof> and for ';' up to the next consumption (same consumption sites and normal returns, or both raise)", 5)
 	tk := w.TKAI()
 	n := 0
 	for _, fn := range w.ModFns {
